@@ -640,7 +640,7 @@ def _markets_loop_body():
 def t_market_fund_params():
     """the fundamental path of a group starts at `fundamentalPrice` if configured, else at `marketPrice`; drift and volatility are the configured ones, else 0"""
     body = _markets_loop_body()
-    start = [i for i, s_ in enumerate(body) if isinstance(s_, ast.If) and ast.unparse(s_.test) == "'fundamentalPrice' in market_settings"]
+    start = [i for i, s_ in enumerate(body) if isinstance(s_, ast.If) and ast.unparse(s_.test) in ("'fundamentalPrice' in market_settings", "'marketPrice' in market_settings")]
     end = [i for i, s_ in enumerate(body) if isinstance(s_, ast.For)]
     if not start or not end or end[0] <= start[0]:
         raise Unsupported(f"anchor-lost: fundamental parameter block of {QM}")
